@@ -232,6 +232,9 @@ class ExplorerScriptSsbDecompiler:
     def source_map_add_opcode(self, op_offset: int) -> None:
         """Has to be called BEFORE writing the opcode."""
         assert self.smb is not None
+        if op_offset < 0:
+            # Not an operation of the script (a statement written for a label or another marker of the decompiler).
+            return
         # TODO: Assumes that all statements start in a new line after indent.
         #       Might need this more flexible.
         self.smb.add_opcode(op_offset, self._line_number, self.indent * NUMBER_OF_SPACES_PER_INDENT)
